@@ -189,7 +189,7 @@ func clipStr(s string, n int) string {
 
 func c11Stress(c *mon.Ctx) {
 	sched.Chaos = 1
-	reps := c.Pick(6, 60)
+	reps := c.Pick(6, 120)
 	ops := c.Pick(4000, 30000)
 	ev := c.Counter("evaluations")
 	for rep := 0; rep < reps; rep++ {
